@@ -16,21 +16,27 @@ HasF(e, f) == f \in DOMAIN e
 StartCount(res) == [k \in 1..Len(res) |-> <<res[k][1], res[k][1] + res[k][2]>>]
 (* one search event carries the answers of every search API of the subject for the same patterns: *)
 (*   search = (start, count)   range = [lo, hi)   find = positions   count   match = (lo, hi, depth) *)
-(*   ranked = positions in suffix order                                                              *)
+(*   ranked = positions in suffix order   mcount = match_count of the match triples                  *)
+(*   da = da_match_max_length (lo, hi, depth)   da_empty = its answer for the empty input            *)
 SearchEventAns(e) ==
     /\ HasF(e, "search") => SearchesAns(e.pats, StartCount(e.search))
     /\ HasF(e, "range")  => SearchesAns(e.pats, e.range)
     /\ HasF(e, "find")   => FindsAns(e.pats, e.find)
     /\ HasF(e, "count")  => CountsAns(e.pats, e.count)
     /\ HasF(e, "match")  => MatchesAns(e.pats, e.match)
-    /\ HasF(e, "ranked") => RankedFindsAns(e.pats, e.ranked)
+    /\ HasF(e, "ranked") => RankedFindsAns(e.pats, e.ranked, e.minl, e.maxl)
+    /\ HasF(e, "mcount") => MatchCountAns(e.match, e.mcount)
+    /\ HasF(e, "da")     => MatchesAns(e.pats, e.da)
+    /\ HasF(e, "da_empty") => DaEmptyAns(e.da_empty)
 LcpEventAns(e) ==
     /\ HasF(e, "lcp") => LcpAns(e.lcp)
     /\ HasF(e, "at")  => LcpAtAns(e.at)
-DerivedOps == {"lcp", "lcp_at", "search"}
+DerivedOps == {"lcp", "lcp_at", "search", "longest", "eqr"}
 DerivedAns(e) ==
     CASE e.op \in {"lcp", "lcp_at"} -> LcpEventAns(e)
       [] e.op = "search"            -> SearchEventAns(e)
+      [] e.op = "longest"           -> LongestAns(e.inputs, e.pos, e.res, e.minl)
+      [] e.op = "eqr"               -> EqRangeAns(e.p, e.lo, e.hi, e.chs, e.res)
       [] OTHER                      -> TRUE
 
 (* C12-KF1: the SA-IS construction (SuffixArrayAlgorithm::SAIS; also what Adaptive selects from    *)
